@@ -24,6 +24,7 @@ from gv.dataflow import Forward
 from gv.props.shared import conj_literals
 from gv.props.shared import unfolded
 from gv.props import describe
+from gv.dataflow import SymValues
 from gv.report import Ctx
 from gv.report import cname
 
@@ -701,6 +702,34 @@ def check_linear_normalize(ctx: Ctx) -> None:
         ctx.ob("1.8-original-untouched", con, False, f"normalize: {what}: building the normalised function changes the coefficients of the user's function, whose value at the physical point is what must be returned and recorded", node=node_, stmt=f"{norm_stmt(node_, 70)} [{p_}]")
     if not res:
         ctx.ob("1.8-original-untouched", con, sites > 0, "no in-place write reaches the original coefficients", node=f, stmt=f"{sites} in-place site(s) examined")
+    # ... nor through an object built FROM the original coefficients: a constructor may keep the matrix it is given (a CSR
+    # matrix goes through `tocsr()` unchanged), so an attribute of that object is the user's matrix again
+    svn = SymValues(f)
+    holders = set()
+    for st in stmts_of(f):
+        if isinstance(st, ast.Assign) and isinstance(st.targets[0], ast.Name) and isinstance(st.value, ast.Call) and isinstance(st.value.func, ast.Name) and st.value.func.id[:1].isupper():
+            args = [*st.value.args, *[k.value for k in st.value.keywords]]
+            if any(t in ("self.coefficients", "self._coefficients") for a in args for t in svn.texts(a)):
+                holders.add(st.targets[0].id)
+    aliases = {st.targets[0].id for st in stmts_of(f) if isinstance(st, ast.Assign) and isinstance(st.targets[0], ast.Name) and isinstance(st.value, ast.Attribute) and isinstance(st.value.value, ast.Name) and st.value.value.id in holders}
+
+    def base(e):
+        while isinstance(e, (ast.Attribute, ast.Subscript)):
+            if isinstance(e, ast.Attribute) and isinstance(e.value, ast.Name) and e.value.id in holders:
+                return e.value.id
+            e = e.value
+        return e.id if isinstance(e, ast.Name) else None
+
+    for st in stmts_of(f):
+        tgt = st.target if isinstance(st, ast.AugAssign) else st.targets[0] if isinstance(st, ast.Assign) and isinstance(st.targets[0], ast.Subscript) else None
+        if tgt is None:
+            continue
+        b = base(tgt)
+        # `holder.attr = value` re-binds; `holder.attr.data *= s`, `alias.data *= s`, `alias[...] = v` write in place
+        inplace = isinstance(st, ast.AugAssign) or isinstance(tgt, ast.Subscript)
+        direct_rebind = isinstance(tgt, ast.Attribute) and isinstance(tgt.value, ast.Name) and tgt.value.id in holders and isinstance(st, ast.Assign)
+        if inplace and not direct_rebind and (b in aliases or b in holders):
+            ctx.ob("1.8-original-untouched", con, False, f"normalize: `{norm_stmt(st, 60)}` writes in place into the coefficients of an object built from self.coefficients without a copy: the constructor keeps a sparse matrix as it is, so this scales the user's own matrix; the first run is right, the original function is wrong ever after", node=st)
     space = f.args.args[1].arg
     wheres = {}
     for s in stmts_of(f):
